@@ -95,7 +95,9 @@ class _Timeout(Exception):
 
 
 class time_limit(object):
-    """a native call that does not come back within `seconds` is a finding (non-termination), not a hang of the check"""
+    """a native call that has not come back after `seconds` of PROCESSOR time of this process is a finding
+    (non-termination), not a hang of the check.  Processor time, not wall-clock time: the verdict must not flip when the
+    machine is busy (a call that takes milliseconds can be held up for seconds of wall-clock time under load)."""
 
     def __init__(self, seconds=5.0):
         self.seconds = seconds
@@ -106,13 +108,13 @@ class time_limit(object):
         def handler(signum, frame):
             raise _Timeout()
 
-        self._old = signal.signal(signal.SIGALRM, handler)
-        signal.setitimer(signal.ITIMER_REAL, self.seconds)
+        self._old = signal.signal(signal.SIGPROF, handler)
+        signal.setitimer(signal.ITIMER_PROF, self.seconds)
 
     def __exit__(self, *exc):
         import signal
-        signal.setitimer(signal.ITIMER_REAL, 0)
-        signal.signal(signal.SIGALRM, self._old)
+        signal.setitimer(signal.ITIMER_PROF, 0)
+        signal.signal(signal.SIGPROF, self._old)
         return False
 
 
@@ -122,7 +124,7 @@ def run_assembly(vector, modules, **kw):
     with warnings.catch_warnings(record=True) as w:
         warnings.simplefilter("always")
         try:
-            with time_limit(5.0):
+            with time_limit(8.0):
                 prod = vector.assemble(*modules, **kw)
         except _Timeout:
             return ("does-not-terminate",), None, w
